@@ -1,4 +1,4 @@
-import Poulpy.Lemmas.ScratchOps
+import Poulpy.Lemmas.ScratchCore
 /-
 C12 — "Declared scratch size always suffices and scratch contents never matter."
 
@@ -214,5 +214,300 @@ theorem vmp_apply_dft_counterexample :
   intro h
   have := h .ntt120 1 1 1 1 ⟨4096, vmpApplyDftTmp .ntt120 1 1 1 1⟩ (by decide)
   revert this; decide
+
+/-! ## core operations -/
+
+section core
+variable (be : BE) (n : Nat)
+
+/- FULL STATEMENT (not proved): for every `size`, `tbLwe n size ≤ a.available → lwe_encrypt_sk succeeds`.
+   False: the `8·size`-byte `take_vec_znx(1,1,size)` is followed by the 64-aligned take of
+   `vec_znx_normalize_assign`; the formula has no padding. -/
+/-- `lwe_encrypt_sk` / `lwe_decrypt` under the hypothesis the proof forces: `8 ∣ size`. -/
+theorem lwe_encrypt_sk_partial (size : Nat) (hs : size % 8 = 0) (a : Arena) (h : tbLwe n size ≤ a.available) :
+    (run (treeLweEncryptSk n size) a).isOk = true := by
+  have hV : vecBytes 1 1 size % 64 = 0 := by unfold vecBytes; omega
+  apply run_ok_of_aligned
+  · simp [treeLweEncryptSk, treeNormalize, fits]
+  · simp [treeLweEncryptSk, treeNormalize, aligned, hV]
+  · refine Nat.le_trans ?_ h
+    simp [treeLweEncryptSk, treeNormalize, tbLwe, reqA]
+
+example : (run (treeLweEncryptSk 16 8) ⟨4104, 56 + tbLwe 16 8⟩).isOk = true := by decide
+
+/-- the reproduced defect: N = 16, size = 4, window of exactly `lwe_encrypt_sk_tmp_bytes` = 416 bytes:
+"Attempted to take 384 from scratch with 352 aligned bytes left" -/
+theorem lwe_encrypt_sk_counterexample :
+    ¬ (∀ (n size : Nat) (a : Arena), n % 8 = 0 → tbLwe n size ≤ a.available → (run (treeLweEncryptSk n size) a).isOk = true) := by
+  intro h
+  have := h 16 4 ⟨4096, 416⟩ (by decide) (by decide)
+  revert this; decide
+
+/-- it fails for *every* ring degree ≥ 8 and every size that is not a multiple of 8, in the exact window -/
+theorem lwe_encrypt_sk_fails_exact (size : Nat) (hn : n % 8 = 0) (hn0 : 0 < n) (hs : size % 8 ≠ 0) (a : Arena)
+    (h : a.available = tbLwe n size) : (run (treeLweEncryptSk n size) a).isOk = false := by
+  apply run_fails _ (by simp [treeLweEncryptSk, treeNormalize, fits])
+  rw [h]
+  simp only [treeLweEncryptSk, treeNormalize, leaf, req, tbLwe, normTmp, vecBytes, pad, alignOff]
+  repeat' split
+  all_goals omega
+
+example : (run (treeLweEncryptSk 1024 3) ⟨4096, tbLwe 1024 3⟩).isOk = false := by decide
+
+theorem lwe_decrypt_partial (size : Nat) (hs : size % 8 = 0) (a : Arena) (h : tbLwe n size ≤ a.available) :
+    (run (treeLweDecrypt n size) a).isOk = true := lwe_encrypt_sk_partial n size hs a h
+
+example : (run (treeLweDecrypt 8 16) ⟨4096, tbLwe 8 16⟩).isOk = true := by decide
+
+theorem lwe_decrypt_counterexample :
+    ¬ (∀ (n size : Nat) (a : Arena), n % 8 = 0 → tbLwe n size ≤ a.available → (run (treeLweDecrypt n size) a).isOk = true) := by
+  intro h
+  have := h 16 6 ⟨4096, 432⟩ (by decide) (by decide)
+  revert this; decide
+
+/-- `glwe_encrypt_sk`, all ranks and sizes, both families -/
+theorem glwe_encrypt_sk_ok (g : G) (hn : n % 8 = 0) (a : Arena)
+    (h : tbGlweEncryptSk be n g.size ≤ a.available) : (run (treeGlweEncryptSk be n g) a).isOk = true := by
+  have hV := vec_mod64 hn 1 g.size
+  have hD := dft_mod64 be hn 1 g.size
+  have hN := norm_mod64 hn
+  have hB := bignorm_mod64 be hn
+  apply run_ok_of_aligned
+  · simp only [treeGlweEncryptSk, treeEncSkInternal, treeNormalize, treeBigNormalize, leaf, loop, fits]
+    split <;> simp [fits]
+  · simp only [treeGlweEncryptSk, treeEncSkInternal, treeNormalize, treeBigNormalize, leaf, loop]
+    split <;> simp [aligned, reqA, hV, hD, hN, hB]
+  · refine Nat.le_trans ?_ h
+    simp only [treeGlweEncryptSk, treeEncSkInternal, treeNormalize, treeBigNormalize, leaf, loop, tbGlweEncryptSk]
+    generalize vecBytes n 1 g.size = V
+    generalize dftBytes be n 1 g.size = D
+    generalize normTmp n = N
+    generalize bigNormTmp be n = B
+    split <;> simp only [reqA, Bool.false_eq_true, if_false] <;> omega
+
+example : (run (treeGlweEncryptSk .ntt120 16 ⟨2, 3, 17⟩) ⟨4104, 56 + tbGlweEncryptSk .ntt120 16 3⟩).isOk = true := by decide
+
+/- FULL STATEMENT (not proved): the same without `n % 8 = 0`.  False for N < 8 (16-byte limbs). -/
+theorem glwe_encrypt_sk_counterexample :
+    ¬ (∀ (be : BE) (n : Nat) (g : G) (a : Arena), tbGlweEncryptSk be n g.size ≤ a.available →
+        (run (treeGlweEncryptSk be n g) a).isOk = true) := by
+  intro h
+  have := h .fft64 2 ⟨1, 1, 17⟩ ⟨4096, tbGlweEncryptSk .fft64 2 1⟩ (by decide)
+  revert this; decide
+
+/- FULL STATEMENT (not proved): `glwe_decrypt` for both families and every size.
+   False on NTT120 with `size = 1`: the formula reserves `vec_znx_normalize_tmp_bytes` (24·N) for a call
+   of `vec_znx_big_normalize`, which takes `vec_znx_big_normalize_tmp_bytes` (48·N on NTT120). -/
+/-- `glwe_decrypt` when the DFT buffer covers the big-normalize buffer (always on FFT64; `size ≥ 2` on NTT120) -/
+theorem glwe_decrypt_partial (g : G) (hn : n % 8 = 0) (hs : be = .fft64 ∨ 2 ≤ g.size) (a : Arena)
+    (h : tbGlweDecrypt be n g.size ≤ a.available) : (run (treeGlweDecrypt be n g) a).isOk = true := by
+  have hV := big_mod64 be hn 1 g.size
+  have hcov : bigNormTmp be n ≤ max (dftBytes be n 1 g.size) (normTmp n) := by
+    rcases hs with rfl | hs
+    · simp [bigNormTmp, normTmp, BE.big]
+    · cases be
+      · simp [bigNormTmp, normTmp, BE.big]
+      · have : n * 1 * 2 * 32 ≤ n * 1 * g.size * 32 := Nat.mul_le_mul_right _ (Nat.mul_le_mul_left _ hs)
+        simp only [bigNormTmp, dftBytes, BE.big, BE.prep]
+        omega
+  apply run_ok_of_aligned
+  · simp only [treeGlweDecrypt, treeBigNormalize, leaf, loop, fits]
+    split <;> simp [fits]
+  · simp only [treeGlweDecrypt, treeBigNormalize, leaf, loop]
+    split <;> simp [aligned, reqA, hV]
+  · refine Nat.le_trans ?_ h
+    simp only [treeGlweDecrypt, treeBigNormalize, leaf, loop, tbGlweDecrypt]
+    generalize bigBytes be n 1 g.size = V at *
+    generalize dftBytes be n 1 g.size = D at *
+    generalize normTmp n = N at *
+    generalize bigNormTmp be n = B at *
+    split <;> simp only [reqA] <;> omega
+
+example : (run (treeGlweDecrypt .ntt120 8 ⟨1, 2, 17⟩) ⟨4096, tbGlweDecrypt .ntt120 8 2⟩).isOk = true := by decide
+
+theorem glwe_decrypt_counterexample :
+    ¬ (∀ (be : BE) (n : Nat) (g : G) (a : Arena), n % 8 = 0 → tbGlweDecrypt be n g.size ≤ a.available →
+        (run (treeGlweDecrypt be n g) a).isOk = true) := by
+  intro h
+  have := h .ntt120 8 ⟨1, 1, 17⟩ ⟨4096, tbGlweDecrypt .ntt120 8 1⟩ (by decide) (by decide)
+  revert this; decide
+
+/- FULL STATEMENT (not proved): `glwe_encrypt_pk` for both families and every size.
+   False on NTT120 with `size = 1`, same cause as `glwe_decrypt` (lvl_2 is `vec_znx_normalize_tmp_bytes`,
+   the call is `vec_znx_big_normalize`); for `size ≥ 2` the unused `bytes_of_vec_znx_big` term hides it. -/
+theorem glwe_encrypt_pk_partial (g : G) (hn : n % 8 = 0) (hs : be = .fft64 ∨ 2 ≤ g.size) (a : Arena)
+    (h : tbGlweEncryptPk be n g.size ≤ a.available) : (run (treeGlweEncryptPk be n g g.size) a).isOk = true := by
+  have hS := svp_mod64 be hn 1
+  have hD := dft_mod64 be hn 1 g.size
+  have hcov : bigNormTmp be n ≤ bigBytes be n 1 g.size + normTmp n := by
+    rcases hs with rfl | hs
+    · simp [bigNormTmp, normTmp, BE.big]
+    · cases be
+      · simp [bigNormTmp, normTmp, BE.big]
+      · have : n * 1 * 2 * 16 ≤ n * 1 * g.size * 16 := Nat.mul_le_mul_right _ (Nat.mul_le_mul_left _ hs)
+        simp only [bigNormTmp, bigBytes, normTmp, BE.big]
+        omega
+  apply run_ok_of_aligned
+  · simp only [treeGlweEncryptPk, treeBigNormalize, leaf, loop, fits]
+    simp [fits]
+  · simp only [treeGlweEncryptPk, treeBigNormalize, leaf, loop]
+    simp [aligned, reqA, hS, hD]
+  · refine Nat.le_trans ?_ h
+    simp only [treeGlweEncryptPk, treeBigNormalize, leaf, loop, tbGlweEncryptPk]
+    generalize svpBytes be n 1 = S at *
+    generalize bigBytes be n 1 g.size = V at *
+    generalize dftBytes be n 1 g.size = D at *
+    generalize scalarBytes n 1 = C at *
+    generalize normTmp n = N at *
+    generalize bigNormTmp be n = B at *
+    simp only [reqA, Nat.add_one_ne_zero, if_false]
+    omega
+
+example : (run (treeGlweEncryptPk .ntt120 8 ⟨1, 2, 17⟩ 2) ⟨4096, tbGlweEncryptPk .ntt120 8 2⟩).isOk = true := by decide
+
+theorem glwe_encrypt_pk_counterexample :
+    ¬ (∀ (be : BE) (n : Nat) (g : G) (a : Arena), n % 8 = 0 → tbGlweEncryptPk be n g.size ≤ a.available →
+        (run (treeGlweEncryptPk be n g g.size) a).isOk = true) := by
+  intro h
+  have := h .ntt120 64 ⟨2, 1, 7⟩ ⟨4096, tbGlweEncryptPk .ntt120 64 1⟩ (by decide) (by decide)
+  revert this; decide
+
+/-- `glwe_normalize`, `glwe_normalize_assign`: every `n`, no alignment hypothesis needed (single take) -/
+theorem glwe_normalize_ok (a : Arena) (h : tbGlweNormalize n ≤ a.available) : (run (treeGlweNormalize n) a).isOk = true := by
+  apply run_ok _ (by simp [treeGlweNormalize, treeNormalize, fits]) a
+  simpa [treeGlweNormalize, treeNormalize, leaf, req, tbGlweNormalize] using h
+
+example : (run (treeGlweNormalize 4) ⟨4099, 61 + tbGlweNormalize 4⟩).isOk = true := by decide
+
+/-- `glwe_rsh`, `glwe_lsh`, `glwe_lsh_assign`, `glwe_lsh_add`, `glwe_lsh_sub` -/
+theorem glwe_shift_ok (a : Arena) (h : tbGlweShift n ≤ a.available) :
+    (run (treeGlweRsh n) a).isOk = true ∧ (run (treeGlweLsh n) a).isOk = true := by
+  constructor
+  · apply run_ok _ (by simp [treeGlweRsh, treeRsh, fits]) a
+    simp only [treeGlweRsh, treeRsh, leaf, req, tbGlweShift, rshTmp, lshTmp] at *
+    simp only [Nat.add_zero, if_true]; omega
+  · apply run_ok _ (by simp [treeGlweLsh, treeLsh, fits]) a
+    simp only [treeGlweLsh, treeLsh, leaf, req, tbGlweShift, rshTmp, lshTmp] at *
+    simp only [Nat.add_zero, if_true]; omega
+
+example : (run (treeGlweRsh 2) ⟨4096, tbGlweShift 2⟩).isOk = true := by decide
+
+/-- `glwe_rotate_assign`, `glwe_mul_xp_minus_one_assign` -/
+theorem glwe_rotate_assign_ok (a : Arena) (h : tbGlweRotate n ≤ a.available) : (run (treeGlweRotateAssign n) a).isOk = true := by
+  apply run_ok _ (by simp [treeGlweRotateAssign, treeOneLimb, fits]) a
+  simpa [treeGlweRotateAssign, treeOneLimb, leaf, req, tbGlweRotate] using h
+
+example : (run (treeGlweRotateAssign 32) ⟨4096, tbGlweRotate 32⟩).isOk = true := by decide
+
+/-- one line for every operation whose tree satisfies `fits ∧ aligned ∧ reqA ≤ tmp_bytes` -/
+theorem ok_of_facts {t : AllocTree} {tb : Nat} (h : fits t = true ∧ aligned t = true ∧ reqA t ≤ tb) (a : Arena)
+    (ha : tb ≤ a.available) : (run t a).isOk = true :=
+  run_ok_of_aligned t h.1 h.2.1 a (Nat.le_trans h.2.2 ha)
+
+/-- `gglwe_product_dft` (the `dsize = 1` and the `dsize > 1` bivariate paths) -/
+theorem gglwe_product_ok (aSize : Nat) (k : K) (hn : n % 8 = 0) (a : Arena)
+    (h : tbGglweProduct be n aSize k ≤ a.available) :
+    (run (treeGglweProduct be n k.rankIn aSize (k.rankOut + 1) k) a).isOk = true :=
+  ok_of_facts (gglweProduct_facts be n _ aSize _ k hn rfl rfl) a h
+
+example : (run (treeGglweProduct .fft64 8 2 7 3 ⟨2, 2, 5, 17, 2, 3⟩) ⟨4096, tbGglweProduct .fft64 8 7 ⟨2, 2, 5, 17, 2, 3⟩⟩).isOk = true := by
+  decide
+
+/-- `glwe_keyswitch` / `glwe_keyswitch_assign`: all ranks, sizes, `dsize`, same- and cross-radix, both families.
+Admissibility = the operation's own entry assertions (`a.rank = key.rank_in`, `res.rank = key.rank_out`). -/
+theorem glwe_keyswitch_ok (res a : G) (k : K) (hn : n % 8 = 0) (ha : a.rank = k.rankIn) (hres : res.rank = k.rankOut)
+    (w : Arena) (h : tbGlweKeyswitch be n res a k ≤ w.available) : (run (treeGlweKeyswitch be n res a k) w).isOk = true :=
+  ok_of_facts (keyswitch_facts be n res a k hn ha hres) w h
+
+example : (run (treeGlweKeyswitch .ntt120 8 ⟨1, 3, 19⟩ ⟨2, 4, 13⟩ ⟨2, 1, 5, 17, 2, 2⟩)
+    ⟨4104, 56 + tbGlweKeyswitch .ntt120 8 ⟨1, 3, 19⟩ ⟨2, 4, 13⟩ ⟨2, 1, 5, 17, 2, 2⟩⟩).isOk = true := by decide
+
+/-- `glwe_external_product` / `_assign` -/
+theorem glwe_external_product_ok (res a : G) (k : K) (hn : n % 8 = 0) (hres : res.rank = k.rankOut)
+    (hb0 : 0 < k.b2k) (hd : 1 ≤ k.dsize) (w : Arena) (h : tbGlweExternalProduct be n res a k ≤ w.available) :
+    (run (treeGlweExternalProduct be n res a k) w).isOk = true :=
+  ok_of_facts (externalProduct_facts be n res a k hn hres hb0 hd) w h
+
+example : (run (treeGlweExternalProduct .fft64 16 ⟨1, 3, 19⟩ ⟨1, 4, 13⟩ ⟨1, 1, 6, 17, 2, 3⟩)
+    ⟨4096, tbGlweExternalProduct .fft64 16 ⟨1, 3, 19⟩ ⟨1, 4, 13⟩ ⟨1, 1, 6, 17, 2, 3⟩⟩).isOk = true := by decide
+
+/-- `glwe_automorphism` / `_assign` -/
+theorem glwe_automorphism_ok (res a : G) (k : K) (hn : n % 8 = 0) (ha : a.rank = k.rankIn) (hres : res.rank = k.rankOut)
+    (w : Arena) (h : tbGlweAutomorphism be n res a k ≤ w.available) : (run (treeGlweAutomorphism be n res a k) w).isOk = true :=
+  ok_of_facts (automorphism_facts be n res a k hn ha hres) w h
+
+example : (run (treeGlweAutomorphism .ntt120 8 ⟨1, 3, 17⟩ ⟨1, 3, 17⟩ ⟨1, 1, 4, 17, 3, 1⟩)
+    ⟨4096, tbGlweAutomorphism .ntt120 8 ⟨1, 3, 17⟩ ⟨1, 3, 17⟩ ⟨1, 1, 4, 17, 3, 1⟩⟩).isOk = true := by decide
+
+/- FULL STATEMENT (not proved): `glwe_automorphism_{add,sub,sub_negate}{,_assign}` for both families, same- and
+   cross-radix.  False on NTT120 in the cross-radix branch: `vec_znx_big_normalize` (48·N) runs on the scratch
+   left after `res_dft` *and* `a_conv`, while `glwe_keyswitch_tmp_bytes` reserves it only next to `res_dft`. -/
+/-- the six fused automorphism variants: FFT64 always, NTT120 in the same-radix branch (or when the inner
+key-switch needs at least `48·N`) -/
+theorem glwe_automorphism_add_partial (res a : G) (k : K) (hn : n % 8 = 0) (ha : a.rank = k.rankIn) (hres : res.rank = k.rankOut)
+    (hcov : be = .fft64 ∨ a.b2k = k.b2k ∨ bigNormTmp be n ≤ tbKsInternal be n (a.conv k.b2k) k)
+    (w : Arena) (h : tbGlweAutomorphism be n res a k ≤ w.available) :
+    (run (treeGlweAutomorphismAdd be n res a k) w).isOk = true := by
+  refine ok_of_facts (automorphismAdd_facts be n res a k hn ha hres ?_) w h
+  intro hx
+  rcases hcov with rfl | hb | hc
+  · simp [bigNormTmp, normTmp, BE.big]
+  · exact absurd hb hx
+  · omega
+
+example : (run (treeGlweAutomorphismAdd .fft64 16 ⟨1, 4, 7⟩ ⟨1, 1, 7⟩ ⟨1, 1, 6, 13, 1, 1⟩)
+    ⟨4096, tbGlweAutomorphism .fft64 16 ⟨1, 4, 7⟩ ⟨1, 1, 7⟩ ⟨1, 1, 6, 13, 1, 1⟩⟩).isOk = true := by decide
+
+/-- witness (replayed on the real code): NTT120, N=16, rank 1, a: 1 limb radix 7, key radix 13 -/
+theorem glwe_automorphism_add_counterexample :
+    ¬ (∀ (be : BE) (n : Nat) (res a : G) (k : K) (w : Arena), n % 8 = 0 → a.rank = k.rankIn → res.rank = k.rankOut →
+        tbGlweAutomorphism be n res a k ≤ w.available → (run (treeGlweAutomorphismAdd be n res a k) w).isOk = true) := by
+  intro h
+  have := h .ntt120 16 ⟨1, 4, 7⟩ ⟨1, 1, 7⟩ ⟨1, 1, 6, 13, 1, 1⟩
+    ⟨4096, tbGlweAutomorphism .ntt120 16 ⟨1, 4, 7⟩ ⟨1, 1, 7⟩ ⟨1, 1, 6, 13, 1, 1⟩⟩ (by decide) (by decide) (by decide) (by decide)
+  revert this; decide
+
+/- FULL STATEMENT (not proved): `glwe_trace(res, skip, a, keys)` succeeds with `glwe_trace_tmp_bytes(res, a, key)`.
+   False for (almost) every shape: `glwe_trace` takes a temporary GLWE and then calls `glwe_trace_assign`,
+   whose entry assertion demands `glwe_trace_tmp_bytes(tmp, tmp, key)` — the temporary is counted twice. -/
+theorem glwe_trace_counterexample :
+    ¬ (∀ (be : BE) (n iters : Nat) (res a : G) (k : K) (w : Arena), n % 8 = 0 → a.rank = k.rankIn → res.rank = k.rankOut →
+        tbGlweTrace be n res a k ≤ w.available → (run (treeGlweTrace be n iters res a k) w).isOk = true) := by
+  intro h
+  have := h .fft64 16 4 ⟨1, 2, 17⟩ ⟨1, 2, 17⟩ ⟨1, 1, 3, 17, 2, 1⟩
+    ⟨4096, tbGlweTrace .fft64 16 ⟨1, 2, 17⟩ ⟨1, 2, 17⟩ ⟨1, 1, 3, 17, 2, 1⟩⟩ (by decide) (by decide) (by decide) (by decide)
+  revert this; decide
+
+/-- what `glwe_trace` really needs in the same-radix case, as an instance: one more copy of the temporary -/
+example : req (treeGlweTrace .fft64 16 4 ⟨1, 2, 17⟩ ⟨1, 2, 17⟩ ⟨1, 1, 3, 17, 2, 1⟩) =
+    tbGlweTrace .fft64 16 ⟨1, 2, 17⟩ ⟨1, 2, 17⟩ ⟨1, 1, 3, 17, 2, 1⟩ + G.bytes 16 ⟨1, 2, 17⟩ := by decide
+
+/-- `glwe_trace_assign` on a concrete same-radix and a concrete cross-radix shape (general theorem not proved,
+see docs/C12.md; tied by correspondence) -/
+example : (run (treeGlweTraceAssign .ntt120 16 3 ⟨1, 2, 17⟩ ⟨1, 1, 3, 17, 2, 1⟩)
+    ⟨4096, tbGlweTrace .ntt120 16 ⟨1, 2, 17⟩ ⟨1, 2, 17⟩ ⟨1, 1, 3, 17, 2, 1⟩⟩).isOk = true := by decide
+
+/-- `gglwe_encrypt_sk` (hence switching/automorphism/tensor key encryption rows) -/
+theorem gglwe_encrypt_sk_ok (k : K) (hn : n % 8 = 0) (w : Arena) (h : tbGgxEncryptSk be n k.size ≤ w.available) :
+    (run (treeGglweEncryptSk be n k) w).isOk = true := ok_of_facts (gglweEncryptSk_facts be n k hn) w h
+
+example : (run (treeGglweEncryptSk .fft64 8 ⟨2, 1, 5, 17, 2, 2⟩) ⟨4096, tbGgxEncryptSk .fft64 8 5⟩).isOk = true := by decide
+
+/-- `ggsw_encrypt_sk` -/
+theorem ggsw_encrypt_sk_ok (k : K) (hn : n % 8 = 0) (w : Arena) (h : tbGgxEncryptSk be n k.size ≤ w.available) :
+    (run (treeGgswEncryptSk be n k) w).isOk = true := ok_of_facts (ggswEncryptSk_facts be n k hn) w h
+
+example : (run (treeGgswEncryptSk .ntt120 8 ⟨2, 2, 5, 17, 2, 2⟩) ⟨4136, 24 + tbGgxEncryptSk .ntt120 8 5⟩).isOk = true := by decide
+
+/- FULL STATEMENT (not proved): the theorems of this section without `n % 8 = 0`.  False for N ∈ {2, 4}
+   (the library accepts them): limbs of 16/32 bytes are followed by aligned takes. -/
+theorem small_ring_counterexample :
+    ¬ (∀ (be : BE) (n : Nat) (k : K) (w : Arena), tbGgxEncryptSk be n k.size ≤ w.available →
+        (run (treeGgswEncryptSk be n k) w).isOk = true) := by
+  intro h
+  have := h .fft64 4 ⟨1, 1, 3, 17, 1, 1⟩ ⟨4096, tbGgxEncryptSk .fft64 4 3⟩ (by decide)
+  revert this; decide
+
+end core
 
 end C12
